@@ -21,7 +21,7 @@ TRUSTED_BASE = [
     "no axioms: every theorem of coq/C18/Properties.v is 'Closed under the global context'",
     "translator checks/C18.py:gen (regex scrape of lib/detail/minicoro.nelua and lib/coroutine.nelua: both enums, storage size, MCO_ZERO_MEMORY, description strings, status strings, panic messages, unregister/destroy order)",
     "extraction: Require Extraction + ExtrOcamlBasic only; Z/positive/nat/string stay Coq inductives; no Extract Constant of our own",
-    "ocaml/zutil.ml + coq/C18/driver.ml (script text -> model ops, model lines -> text; encodes typed values as little-endian bytes)",
+    "coq/C18/glue.ml (local copy of the needed part of ocaml/zutil.ml: the extracted model contains Coq's string type, which shadows OCaml's inside zutil.ml) + coq/C18/driver.ml (script text -> model ops, model lines -> text; encodes typed values as little-endian bytes)",
     "harness/C18/codriver.nelua (schedule interpreter on the real coroutine library; nothing of coroutine.nelua / minicoro is re-implemented), harness/C18/oracle.py (reference semantics), gcc, the real Nelua compiler built from /repo/src",
     "modelled rather than verified: coroutine.nelua and the C functions of minicoro are mirrored by hand in coq/C18/Model.v; the context switch itself (assembly) and the intactness of suspended frames are outside the model and observed only through per-frame canaries",
 ]
@@ -189,6 +189,7 @@ def gen(ctx):
     txt += "Definition PANIC_UNREGISTER : string := %s.\n" % _coq_str(out["panic_unregister"])
     txt += "Definition DESTROY_UNREGISTERS_FIRST : bool := %s.\n" % ("true" if out["destroy_unregisters_first"] else "false")
     vlib.write_if_changed(os.path.join(vlib.coq_dir(ID), "Gen.v"), txt)
+    ORACLE.CAP = out["MCO_DEFAULT_STORAGE_SIZE"]     # policy constant: the reference semantics follows the source
     return out
 
 
@@ -204,15 +205,24 @@ ORACLE = _load_oracle()
 NSLOTS = 24
 I64MIN, I64MAX = -(1 << 63), (1 << 63) - 1
 
-KEY_DESTROY = ("schedule[gc]:create 0 0;resume 0;destroy 0;status 0;ret 0 0;destroy 0 -> after the failed "
-               "destroy of the running coroutine it is no longer registered in the GC and the later destroy of the dead "
-               "coroutine aborts with 'invalid unregister pointer' [coroutine.destroy calls gc:unregister before minicoro.destroy]")
-KEY_DESTROY_NORMAL = ("schedule[gc]:create 0 0;create 1 0;resume 0;resume 1;destroy 0;status 0 -> after the failed destroy of a "
-                      "normal coroutine (by the coroutine it resumed) it is no longer registered in the GC: its stack is not scanned any more "
+KEY_DESTROY = ("schedule[gc]:create 0 0;resume 0;destroy 0;status 0;ret 0 0;destroy 0 -> after the refused "
+               "destroy of the running coroutine (by itself) it is no longer registered in the GC and the later legal destroy of the "
+               "dead coroutine aborts with 'invalid unregister pointer' [coroutine.destroy calls gc:unregister before minicoro.destroy]")
+KEY_DESTROY_NORMAL = ("schedule[gc]:create 0 0;create 1 0;resume 0;resume 1;destroy 0;status 0;yield;ret 0 0;destroy 0 -> after the "
+                      "refused destroy of a normal coroutine (by the coroutine it resumed) it is no longer registered in the GC (its stack "
+                      "is not scanned any more) and the later legal destroy of it aborts with 'invalid unregister pointer' "
                       "[coroutine.destroy calls gc:unregister before minicoro.destroy]")
-WITNESS_DESTROY = ["create 0 0", "resume 0", "destroy 0", "status 0", "ret 0 0", "destroy 0", "end"]
-# same defect through a Normal coroutine (it resumed another one which tries to destroy it)
-WITNESS_DESTROY_NORMAL = ["create 0 0", "create 1 0", "resume 0", "resume 1", "destroy 0", "status 0", "yield", "status 0", "end"]
+KEY_CLOSE_NORMAL = ("schedule[gc]:create 0 0;create 1 0;resume 0;resume 1;close 0;status 0;yield;yield;destroy 0 -> same defect through "
+                    "coroutine:__close (a <close> handle of a normal ancestor going out of scope inside the coroutine it resumed), then a legal "
+                    "destroy of the suspended coroutine aborts [coroutine.destroy calls gc:unregister before minicoro.destroy]")
+# (name, schedule, key)
+WITNESSES = [
+    ("destroy-running", ["create 0 0", "resume 0", "destroy 0", "status 0", "ret 0 0", "destroy 0", "end"], KEY_DESTROY),
+    ("destroy-normal", ["create 0 0", "create 1 0", "resume 0", "resume 1", "destroy 0", "status 0", "yield", "status 0",
+                        "ret 0 0", "status 0", "destroy 0", "end"], KEY_DESTROY_NORMAL),
+    ("close-normal", ["create 0 0", "create 1 0", "resume 0", "resume 1", "close 0", "status 0", "yield", "yield", "status 0",
+                      "destroy 0", "end"], KEY_CLOSE_NORMAL),
+]
 
 
 # ---------------------------------------------------------------------------- generators
@@ -249,7 +259,9 @@ SHAPE_LAST = {0: 8, 1: 1, 2: 8, 3: 8}     # size of the component popped first
 def gen_schedule(rng, stream, gc, ncos, nops, maxchain, maxdepth):
     """Generates one schedule by simulating the reference semantics.  stream:
     'tree'    valid nested resume/yield trees with pending storage at every switch;
-    'invalid' the same plus every invalid transition (and, rarely, the documented panics).
+    'invalid' the same plus every invalid transition (and, rarely, the documented panics);
+    'rollback' the same plus multi-value push / resume(co, ...) / yield(...) whose first values fit and a
+              later one overflows the storage, with values pending.
     In GC builds a destroy of a running/normal coroutine is never generated (known defect,
     replayed separately)."""
     ref = ORACLE.Ref(gc, NSLOTS)
@@ -270,6 +282,26 @@ def gen_schedule(rng, stream, gc, ncos, nops, maxchain, maxdepth):
 
     def free_bytes(k):
         return ORACLE.CAP - len(ref.slots[k].store)
+
+    def tune(k, target):
+        """bring the storage of k to exactly `target` bytes with valid pushes and drops"""
+        n = len(ref.slots[k].store)
+        guard = 0
+        while n != target and guard < 40:
+            guard += 1
+            if n > target:
+                emit("drop %d %d" % (k, n - target))
+            elif target - n >= 264 and rng.random() < 0.8:
+                emit("push %d 3 %s" % (k, vals(3)))
+            elif target - n >= 13:
+                emit("push %d 1 %s" % (k, vals(1)))
+            elif target - n >= 8:
+                emit("push %d 0 %s" % (k, vals(0)))
+            elif free_bytes(k) >= 8:
+                emit("push %d 0 %s" % (k, vals(0)))
+            else:
+                emit("drop %d %d" % (k, min(n, 16)))
+            n = len(ref.slots[k].store)
 
     def pick_shape_fitting(k):
         c = [sh for sh in (0, 1, 2, 3) if SHAPE_BYTES[sh] <= free_bytes(k)]
@@ -302,7 +334,8 @@ def gen_schedule(rng, stream, gc, ncos, nops, maxchain, maxdepth):
             elif c == 3 and w is None:
                 emit(rng.choice(["yield", "yieldv %d %s" % (1, vals(1))]))
             elif c == 4 and act and not gc:
-                emit("destroy %d" % rng.choice(act))          # running or normal
+                # a coroutine destroys / closes itself or one of its (normal) resumers
+                emit(rng.choice(["destroy %d", "destroy %d", "close %d"]) % rng.choice(act))
             elif c == 5 and live:
                 k = rng.choice(live)
                 # push overflow: fill up to near the capacity, then overflow (rollback of the big component)
@@ -351,6 +384,29 @@ def gen_schedule(rng, stream, gc, ncos, nops, maxchain, maxdepth):
             elif c == 13 and susp:
                 k = rng.choice(susp)
                 emit("status %d" % k)
+            continue
+        # ---------------- rollback of multi-value pushes with values pending (main and coroutines)
+        if (invalid and r < 0.34) or (stream == "rollback" and r < 0.5):
+            cand = live if rng.random() < 0.6 or w is None else [w]
+            if cand:
+                k = rng.choice(cand)
+                sh = rng.choice([1, 1, 2, 3])
+                sizes = [ORACLE.SIZE[x] for x in ORACLE.SHAPES[sh]]
+                cut = rng.randrange(1, len(sizes))              # the first `cut` values fit, value cut+1 does not
+                lo = sum(sizes[:cut])
+                hi = sum(sizes[:cut + 1])
+                free = rng.randrange(lo, hi)
+                tune(k, ORACLE.CAP - free)
+                if free_bytes(k) == free:
+                    how = rng.randrange(3)
+                    if how == 0 or (how == 2 and k != w):
+                        emit("push %d %d %s" % (k, sh, vals(sh)))
+                    elif how == 1:
+                        emit("resumev %d %d %s" % (k, sh, vals(sh)))
+                    else:
+                        emit("yieldv %d %s" % (sh, vals(sh)))
+                    emit("status %d" % k)
+                    emit("peek %d %d" % (k, min(64, len(ref.slots[k].store))))
             continue
         # ---------------- valid moves
         r = rng.random()
@@ -422,7 +478,7 @@ def gen_schedule(rng, stream, gc, ncos, nops, maxchain, maxdepth):
         elif r < 0.98:
             c = [k for k in susp + dead]
             if c:
-                emit("destroy %d" % rng.choice(c))
+                emit(rng.choice(["destroy %d", "destroy %d", "close %d"]) % rng.choice(c))
         else:
             emit("gc")
     if not ref.done:
@@ -451,7 +507,8 @@ def norm_expected(lines):
 
 
 def run_impl(binary, script, timeout=60):
-    rc, out, err = vlib.sh([binary], input="\n".join(script) + "\n", timeout=timeout)
+    rc, out, err = vlib.sh([binary], input="\n".join(script) + "\n", timeout=timeout,
+                           env={"ASAN_OPTIONS": "detect_leaks=0:detect_stack_use_after_return=0"})
     lines = [l for l in out.split("\n") if l]
     if rc != 0:
         msg = None
@@ -514,18 +571,99 @@ def build_model(ctx):
 
 
 def build_driver(ctx, tag, extra):
-    out = os.path.join(ctx.work, "codriver-" + tag)
-    stamp = out + ".stamp"
+    """compiled schedule interpreter, cached per (harness, lib sources, flags, repo root): concurrent runs
+    against different repository copies (VERIF_REPO) never share a binary"""
+    import hashlib
     key = vlib.sha_files([HARNESS] + vlib.walk_files(os.path.join(vlib.REPO, "lib"), (".nelua",)) +
                          vlib.walk_files(os.path.join(vlib.REPO, "lualib"), (".lua",))) + repr(extra) + vlib.REPO
-    if os.path.exists(out) and os.path.exists(stamp) and vlib.read(stamp) == key:
-        return out
-    rc, o, e = vlib.nelua_build(HARNESS, out, extra=list(extra))
-    if rc != 0 or not os.path.exists(out):
-        raise RuntimeError("cannot build the coroutine driver (%s): %s" % (tag, (o + e)[-1500:]))
-    with open(stamp, "w") as f:
-        f.write(key)
+    h = hashlib.sha1(key.encode()).hexdigest()[:12]
+    out = os.path.join(ctx.work, "codriver-%s-%s" % (tag, h))
+    with vlib.Lock("C18-build-" + h):
+        if os.path.exists(out):
+            return out
+        tmp = out + ".tmp%d" % os.getpid()
+        rc, o, e = vlib.nelua_build(HARNESS, tmp, extra=list(extra))
+        if rc != 0 or not os.path.exists(tmp):
+            raise RuntimeError("cannot build the coroutine driver (%s): %s" % (tag, (o + e)[-1500:]))
+        os.rename(tmp, out)
+        # prune old binaries of this tag (keep the 4 newest)
+        olds = sorted((os.path.getmtime(os.path.join(ctx.work, f)), f) for f in os.listdir(ctx.work)
+                      if f.startswith("codriver-%s-" % tag) and ".tmp" not in f)
+        for _, f in olds[:-4]:
+            try:
+                os.remove(os.path.join(ctx.work, f))
+            except OSError:
+                pass
     return out
+
+
+def triggers_known(script, gc):
+    """does the schedule destroy/close a running or normal coroutine in a GC build (the known defect)?"""
+    if not gc:
+        return False
+    ref = ORACLE.Ref(True, NSLOTS)
+    for i, cmd in enumerate(script):
+        w = cmd.split()
+        if w[0] in ("destroy", "close"):
+            co = ref.slots.get(int(w[1]))
+            if co is not None and co.status in ("running", "normal"):
+                return True
+        ref.step(i, w)
+        if ref.done:
+            break
+    return False
+
+
+def destroys_live_frames(script, gc):
+    """does the schedule destroy/close a coroutine that is suspended inside its body (frames still on its
+    stack)?  Under -fsanitize=address the shadow of those frames stays poisoned after the munmap and the
+    next coroutine mapped at that address reports false positives, so the ASan build skips such schedules."""
+    ref = ORACLE.Ref(gc, NSLOTS)
+    for i, cmd in enumerate(script):
+        w = cmd.split()
+        if w[0] in ("destroy", "close"):
+            co = ref.slots.get(int(w[1]))
+            if co is not None and co.status == "suspended" and co.started:
+                return True
+        ref.step(i, w)
+        if ref.done:
+            break
+    return False
+
+
+def shrink(binary, script, gc, budget=160):
+    """delta debugging on the command list: keeps a schedule on which the implementation still differs
+    from the documented behaviour (and which stays clear of the known defect)."""
+    def fails(sc):
+        if triggers_known(sc, gc):
+            return False
+        try:
+            exp = norm_expected(ORACLE.run(sc, gc, NSLOTS))
+        except Exception:
+            return False
+        rc, il = run_impl(binary, sc, timeout=20)
+        return first_diff(il, exp) is not None
+    body = [c for c in script if c != "end"]
+    n = 2
+    runs = 0
+    while len(body) >= 2 and runs < budget:
+        chunk = max(1, len(body) // n)
+        reduced = False
+        for i in range(0, len(body), chunk):
+            cand = body[:i] + body[i + chunk:]
+            runs += 1
+            if cand and fails(cand + ["end"]):
+                body = cand
+                n = max(n - 1, 2)
+                reduced = True
+                break
+            if runs >= budget:
+                break
+        if not reduced:
+            if chunk == 1:
+                break
+            n = min(n * 2, len(body))
+    return body + ["end"]
 
 
 def short(script, n=14):
@@ -538,6 +676,7 @@ def correspond(ctx):
     builds = [("gc", [], True), ("nogc", ["-P", "nogc"], False)]
     if ctx.thorough:
         builds.append(("release", ["--release"], True))
+        builds.append(("asan", ["--sanitize"], True))
     # ---- schedules (generated once per GC mode: the invalid stream differs)
     corpus = []
     cdir = os.path.join(vlib.VERIF, "corpus", ID)
@@ -547,14 +686,14 @@ def correspond(ctx):
                 sc = [l.strip() for l in vlib.read(os.path.join(cdir, f)).split("\n") if l.strip() and not l.startswith("#")]
                 nogc_only = any(l.startswith("# nogc-only") for l in vlib.read(os.path.join(cdir, f)).split("\n"))
                 corpus.append(("corpus/" + f, sc, nogc_only))
-    n_tree = ctx.scale(160, 12000)
-    n_inv = ctx.scale(110, 8000)
+    n_tree = ctx.scale(160, 8000)
+    n_inv = ctx.scale(110, 6000)
     sets = {}
     dist = {"streams": {}, "commands": {}, "max_chain": 0, "max_frame_depth": 0}
     for gcmode in (True, False):
         items = [(n, sc) for (n, sc, nogc_only) in corpus if not (gcmode and nogc_only)]
-        for stream, cnt in (("tree", n_tree), ("invalid", n_inv)):
-            if not gcmode and stream == "tree":
+        for stream, cnt in (("tree", n_tree), ("invalid", n_inv), ("rollback", n_inv // 2)):
+            if not gcmode and stream != "invalid":
                 cnt = cnt // 4
             for i in range(cnt):
                 big = rng.random() < 0.15
@@ -571,6 +710,7 @@ def correspond(ctx):
     evaluations = 0
     nontrivial = set()
     n_oracle = n_mismatch = 0
+    n_runs = 0
     samples = []
     err_hist = {}
     for tag, extra, gcmode in builds:
@@ -578,12 +718,17 @@ def correspond(ctx):
         items = sets[gcmode]
         if tag == "release":
             items = items[: len(items) // 3]
+        elif tag == "asan":
+            items = [it for it in items[len(items) // 3: len(items) // 3 + len(items) // 4]
+                     if not destroys_live_frames(it[1], gcmode)]
+            dist["asan_schedules"] = len(items)
 
         def one(it):
             return run_impl(binary, it[1])
         with concurrent.futures.ThreadPoolExecutor(max_workers=4) as ex:
             impl = list(ex.map(one, items))
         mod = run_model(model, [sc for _, sc in items], gcmode)
+        n_runs += len(items)
         for (name, sc), (rc, ilines), mlines in zip(items, impl, mod):
             exp = norm_expected(ORACLE.run(sc, gcmode, NSLOTS))
             mlines = norm_expected(mlines)
@@ -597,12 +742,21 @@ def correspond(ctx):
             sw = sum(1 for l in ilines if " resume|true|" in l)
             if sw >= 3 and any(" pop|true|" in l for l in ilines):
                 nontrivial.add(tuple(sc))
-            if len(samples) < 4 and name.startswith(("tree", "invalid")) and tag == "gc":
+            if len(samples) < 4 and name.startswith(("tree", "invalid", "rollback")) and tag == "gc":
                 samples.append("%s/%s: %s" % (tag, name, short(sc)))
             d = first_diff(ilines, exp)
             if d is not None:
                 n_oracle += 1
                 if n_oracle <= 4:
+                    if n_oracle <= 2 and len(sc) > 12:
+                        # minimise, then report the minimised schedule
+                        small = shrink(binary, sc, gcmode)
+                        rc2, il2 = run_impl(binary, small)
+                        exp2 = norm_expected(ORACLE.run(small, gcmode, NSLOTS))
+                        d2 = first_diff(il2, exp2)
+                        if d2 is not None:
+                            sc, ilines, exp, d = small, il2, exp2, d2
+                            mlines = norm_expected(run_model(model, [small], gcmode)[0])
                     i, got, want = d
                     ci = cmd_of_line(ilines, i)
                     path = os.path.join(ctx.work, "fail-%s-%s.txt" % (tag, name.replace("/", "_")))
@@ -628,7 +782,7 @@ def correspond(ctx):
                                   failing_input=False)
         # ---- known defect of the unchanged tree: replay the witnesses (GC builds)
         if gcmode:
-            for wname, wsc, key in (("destroy-running", WITNESS_DESTROY, KEY_DESTROY), ("destroy-normal", WITNESS_DESTROY_NORMAL, KEY_DESTROY_NORMAL)):
+            for wname, wsc, key in WITNESSES:
                 rc, ilines = run_impl(binary, wsc)
                 exp = norm_expected(ORACLE.run(wsc, True, NSLOTS))
                 mlines = norm_expected(run_model(model, [wsc], True)[0])
@@ -653,7 +807,10 @@ def correspond(ctx):
         "samples": samples,
         "distribution": {"schedules": {("gc" if g else "nogc"): len(v) for g, v in sets.items()}, "builds": [b[0] for b in builds],
                          **dist, "error_results": err_hist},
+        "unproved": ["intactness of the locals of suspended frames and the context switch itself (outside the model; observed through per-frame canaries on every run)",
+                     "MCO_STACK_OVERFLOW, allocation failure and the raw minicoro.yield/resume entry points on a coroutine other than the running one (not modelled)",
+                     "model = code is established by differential correspondence only"],
         "oracle_failures": n_oracle,
         "model_mismatches": n_mismatch,
-        "traces_validated_against_impl": sum(len(sets[g]) for _, _, g in builds),
+        "traces_validated_against_impl": n_runs,
     }
